@@ -29,6 +29,9 @@ def dropped (ivs : List Iv) (c : Comment) : Bool := ivs.any (fun i => inside i c
 def filterComments (ivs : List Iv) (cs : List Comment) : List Comment :=
   cs.filter (fun c => !dropped ivs c)
 
+/-- every changed interval starts at NoPos (and is skipped by the filter) or at or after `hi` -/
+def startsClearB (hi : Nat) (ivs : List Iv) : Bool := ivs.all (fun i => i.s == 0 || decide (hi ≤ i.s))
+
 /-- the extent of a top-level declaration: from its doc comment to the comments trailing its last line -/
 structure Extent where
   s : Nat
